@@ -262,7 +262,7 @@ PROPS = {
 
 EXTRA_COV = {}
 
-TIER = {"quick": dict(unit=12, mc_timeout=60), "thorough": dict(unit=400, mc_timeout=1500)}
+TIER = {"quick": dict(unit=12, mc_timeout=240), "thorough": dict(unit=400, mc_timeout=1500)}
 
 
 def gen_scenarios(prop, tier, seed, workdir):
